@@ -218,3 +218,56 @@ def handle_msg_keeps_the_view_readable(n, kind):
         check(fl._map.get(idx) == dtm, "the reported entry is shown at the reported position")
     if verb == " I":
         check(fl._is_current is False, "an unsolicited announcement marks the view as possibly stale")
+
+
+# ---- the read-through loop --------------------------------------------------------------------------------------
+NULL_PAYLOAD = "000000B0000000000000000000007FFFFF7000000000"
+
+
+class FakeLogPkt:
+    def __init__(self, idx, null):
+        self.payload = NULL_PAYLOAD if null else f"0040{idx:02X}B0040004000000CB955F71FFFFFF70001283B3"
+        self._ghost_idx = idx
+        self._ghost_null = null
+
+
+class FakeLogGwy:
+    def __init__(self, depth):
+        self.depth = depth
+
+    async def async_send_cmd(self, cmd, **kwargs):
+        ghost("requests").append(cmd)
+        return FakeLogPkt(cmd, cmd >= self.depth)
+
+
+def log_entry_cmd_stub(cls, ctl_id, log_idx):
+    return log_idx  # (the command is identified by the position it asks for)
+
+
+def process_msg_stub(self, msg):
+    ghost("processed").append(msg)
+
+
+def hack_pkt_idx_stub(self, pkt, cmd):
+    return ("null entry", cmd)
+
+
+def message_stub(pkt):
+    return ("entry", pkt._ghost_idx)
+
+
+@harness("C19", cases=[(d,) for d in (0, 1, 3, 6, 9)],
+         stubs={F.FaultLog._process_msg: process_msg_stub, F.FaultLog._hack_pkt_idx: hack_pkt_idx_stub, F.Command.get_system_log_entry.__func__: log_entry_cmd_stub},
+         subst={F.Message: message_stub})
+def read_through_asks_the_controller(depth):
+    """get_faultlog reads the log from the top, whatever it believed before (also when it believes
+    it is current): it asks for position 0, 1, ... until the first null entry (or its limit),
+    and feeds every reply -- the null one too -- to _process_msg, in order."""
+    fl = new_object(F.FaultLog, id="01:145038", _gwy=FakeLogGwy(depth), _map={}, _log={}, _is_current=sym_bool("believed_current"),
+                    _is_getting=False, _log_done=None)
+    o = outcome(fl.get_faultlog)
+    check(o.ok, "get_faultlog does not raise")
+    want = min(depth + 1, F.DEFAULT_GET_LIMIT)
+    check(ghost("requests") == list(range(want)), "positions 0 .. first null entry (or the limit) are requested, in order")
+    check(len(ghost("processed")) == want, "every reply is processed, the null entry too")
+    check(fl._is_getting is False, "the read-through is over")
